@@ -53,7 +53,7 @@ func RunC18(ep *core.Episode) {
 		}
 		return ln, nil
 	}
-	ep.OnCleanup(func() { standard.VerifListen = nil })
+	ep.OnDrained(func() { standard.VerifListen = nil })
 
 	exitWait := tp.PickDur("exitwait", 50*time.Millisecond, 5*time.Second)
 	idleT := tp.PickDur("idle", 0, 20*time.Millisecond, 30*time.Second)
@@ -148,7 +148,7 @@ func RunC18(ep *core.Episode) {
 				S.Yield(site)
 			}
 		}
-		ep.OnCleanup(func() { verifhook.OnYield = nil })
+		ep.OnDrained(func() { verifhook.OnYield = nil })
 	}
 	hookCalls := make([]int, nhooks)
 	hookDone := make([]int, nhooks)       // hooks that ran to their end
